@@ -281,10 +281,10 @@ func TestCheck(t *testing.T) {
 		return f
 	})
 	r.Main(evid.Meta{
-		Rule:        "two library endpoints in a synctest bubble; a history of 1-12 exchanges (GET/POST/PUT/DELETE with bodies from 0 to several blocks, one-way writes, observe with notifications, observe cancellation, ping), each steered towards an ending (answered, peer never answers, slow handler outlasting the deadline, caller cancellation after 1-50 ms, separate response), partly concurrent, behind request limits 1/2/16 and NSTART 1/8, on a datagram link with drop/duplicate/re-order/replay tapes or on a stream; then 300 virtual seconds of idle time with housekeeping ticks every 100/500/4000 ms, after which the size of every per-exchange table of both connections (verif accessors: token and message-ID continuations, response cache, per-ID locks, block-wise receive/send caches, limiter queues, observations) must equal the model: zero, or the number of observations still live. scripted: one client connection against the scripted wire-level peer, 1-12 exchanges (GET, POST with block-wise upload, observe, cancel, ping, one-way write, a request that re-uses the token of an outstanding one) whose endings the peer chooses (answer, silence, bare ACK, reset, duplicated reply, stray reply, undecodable Block2 option, first block then silence, block-wise download), caller cancellation, NSTART 1/2/8, limits 1/2/16, MAX_RETRANSMIT 0-3; same idle phase and read-out. Non-trivial = at least one exchange ended with an error or an error status; distinct by scenario",
+		Rule:        "backlog: a datagram connection (client role or created by a DTLS server) that receives 5-4000 confirmable requests with message IDs of their own within 0-60 s (handler answers, or leaves the acknowledgement to the library; every n-th the first block of an upload nobody continues), then nothing for the exchange lifetime + 5 s, then ONE housekeeping run: no cached reply, reassembly buffer, lock or handler entry is left. Others: two library endpoints in a synctest bubble; a history of 1-12 exchanges (GET/POST/PUT/DELETE with bodies from 0 to several blocks, one-way writes, observe with notifications, observe cancellation, ping), each steered towards an ending (answered, peer never answers, slow handler outlasting the deadline, caller cancellation after 1-50 ms, separate response), partly concurrent, behind request limits 1/2/16 and NSTART 1/8, on a datagram link with drop/duplicate/re-order/replay tapes or on a stream; then 300 virtual seconds of idle time with housekeeping ticks every 100/500/4000 ms, after which the size of every per-exchange table of both connections (verif accessors: token and message-ID continuations, response cache, per-ID locks, block-wise receive/send caches, limiter queues, observations) must equal the model: zero, or the number of observations still live. scripted: one client connection against the scripted wire-level peer, 1-12 exchanges (GET, POST with block-wise upload, observe, cancel, ping, one-way write, a request that re-uses the token of an outstanding one) whose endings the peer chooses (answer, silence, bare ACK, reset, duplicated reply, stray reply, undecodable Block2 option, first block then silence, block-wise download), caller cancellation, NSTART 1/2/8, limits 1/2/16, MAX_RETRANSMIT 0-3; same idle phase and read-out. Non-trivial = at least one exchange ended with an error or an error status; distinct by scenario",
 		Assumptions: []string{"tables of a connection that was closed during the history are not read", "the idle phase (300 s) exceeds every deadline in the scenario, the block-wise timeouts and the 247 s exchange lifetime"},
 		Floor:       200,
-	}, eng, scripted)
+	}, eng, scripted, backlogEngine(t, r))
 }
 
 func scriptedOracle(sc clientsim.Scenario, tr clientsim.Trace) *evid.Failure {
